@@ -168,20 +168,23 @@ func init() {
 		},
 
 		// ---- runtime / unsafe / abi
-		"internal/abi.NoEscape":      func(fr *frame, a []value) value { return a[0] },
-		"internal/abi.Escape":        func(fr *frame, a []value) value { return a[0] },
-		"runtime.Caller":             func(fr *frame, a []value) value { return tuple{uintptr(0), "go-source.go", 1, true} },
-		"runtime.Callers":            func(fr *frame, a []value) value { return 0 },
-		"runtime.KeepAlive":          func(fr *frame, a []value) value { return nil },
-		"runtime.SetFinalizer":       func(fr *frame, a []value) value { return nil },
-		"runtime.Gosched":            func(fr *frame, a []value) value { return nil },
-		"runtime.GC":                 func(fr *frame, a []value) value { return nil },
-		"runtime.NumGoroutine":       func(fr *frame, a []value) value { return 1 },
-		"runtime/debug.Stack":        func(fr *frame, a []value) value { b, _ := strBytes("goroutine 1 [running]:\n"); return b },
-		"runtime/debug.SetGCPercent": func(fr *frame, a []value) value { return 100 },
-		"os/signal.Notify":           func(fr *frame, a []value) value { return nil },
-		"os.Getenv":                  func(fr *frame, a []value) value { return "" },
-		"os.LookupEnv":               func(fr *frame, a []value) value { return tuple{"", false} },
+		"internal/abi.NoEscape":                     func(fr *frame, a []value) value { return a[0] },
+		"internal/abi.Escape":                       func(fr *frame, a []value) value { return a[0] },
+		"runtime.Caller":                            func(fr *frame, a []value) value { return tuple{uintptr(0), "go-source.go", 1, true} },
+		"runtime.Callers":                           func(fr *frame, a []value) value { return 0 },
+		"(*internal/godebug.Setting).Value":         func(fr *frame, a []value) value { return "" },
+		"(*internal/godebug.Setting).IncNonDefault": func(fr *frame, a []value) value { return nil },
+		"(*internal/godebug.Setting).Undocumented":  func(fr *frame, a []value) value { return false },
+		"runtime.KeepAlive":                         func(fr *frame, a []value) value { return nil },
+		"runtime.SetFinalizer":                      func(fr *frame, a []value) value { return nil },
+		"runtime.Gosched":                           func(fr *frame, a []value) value { return nil },
+		"runtime.GC":                                func(fr *frame, a []value) value { return nil },
+		"runtime.NumGoroutine":                      func(fr *frame, a []value) value { return 1 },
+		"runtime/debug.Stack":                       func(fr *frame, a []value) value { b, _ := strBytes("goroutine 1 [running]:\n"); return b },
+		"runtime/debug.SetGCPercent":                func(fr *frame, a []value) value { return 100 },
+		"os/signal.Notify":                          func(fr *frame, a []value) value { return nil },
+		"os.Getenv":                                 func(fr *frame, a []value) value { return "" },
+		"os.LookupEnv":                              func(fr *frame, a []value) value { return tuple{"", false} },
 		"os.Stat": func(fr *frame, a []value) value {
 			return tuple{iface{}, fr.i.newError(fr, "stat "+goStr(a[0])+": no such file or directory (engine: empty file system)")}
 		},
